@@ -48,7 +48,9 @@ Definition buckets_accept (bs : list f64) : bool :=
   match check_and_adjust_buckets bs with Some _ => true | None => false end.     (* C08 owns this condition *)
 Definition registry_accept (prefix : option str) (labels : option (list (str * str))) : bool :=
   match prefix with Some p => re_metric p | None => true end
-  && match labels with Some l => forallb re_label (map fst l) | None => true end.
+  && match labels with Some l => forallb re_label (map fst l) && negb (mem_str LE (map fst l)) | None => true end.
+(* the reserved name le is refused as a registry-level common label as well: a common label is appended to every
+   sample, including histogram samples, whose buckets are exposed with their own le label *)
 
 Definition res_ok (r : result unit) : bool := match r with Ok _ => true | Err _ => false end.
 Definition opts_accept_b (o : Opts) (vars : list str) : bool :=
@@ -101,7 +103,10 @@ Definition ctor_ok (x : op * obs) : bool :=
 
 (* (b) what gather() returned *)
 Definition sample_ok (m : Metric) : bool :=
-  let ns := map lp_name (m_label m) in forallb re_label ns && nodup_str ns.
+  let ns := map lp_name (m_label m) in forallb re_label ns && nodup_str ns
+  (* "reject the reserved label name le on histograms": no sample that carries a histogram value has a label
+     named le (its buckets are exposed with le) - registry-level common labels included *)
+  && match m_histogram m with Some _ => negb (mem_str LE ns) | None => true end.
 Definition family_ok (mf : MetricFamily) : bool := re_metric (mf_name mf) && forallb sample_ok (mf_metric mf).
 Definition gather_ok (ob : obs) : bool := match ob with OFams fs => forallb family_ok fs | _ => true end.
 (* a user-written collector can hand anything to gather: the property speaks of the library's own metrics *)
